@@ -2,8 +2,10 @@ package codec
 
 import (
 	"bytes"
+	"errors"
 	"fmt"
 	"io"
+	"net"
 	"os"
 	"reflect"
 	"runtime"
@@ -75,8 +77,30 @@ const c07forged = uint64(1) << 63 // history entries with this bit carry a wrong
 func c07runHistory(rep *vh.Report, keyRaw []byte, key *frame.V2Key, hist []uint64, frames map[uint64][]byte) {
 	rep.Eval(1)
 	var stream []byte
+	// a dialect is configured for every other history; the frames carry ids outside it (they come back raw) and the window
+	// works the same - except for the "bad" entries below
+	withDialect := len(hist)%2 == 0
+	var offs []int
+	bad := map[int]bool{}
+	var bm c07model
 	for hi, ent := range hist {
+		offs = append(offs, len(stream))
 		ts := ent &^ c07forged
+		if ent&c07forged == 0 && withDialect && bm.has && ts <= bm.newest && ts+c07window >= bm.newest && (hi+len(hist))%4 == 1 {
+			// a correctly signed frame inside the window and not newer than the newest accepted one, carrying a message of the
+			// dialect with a checksum made for another definition of it: refused after its signature was checked. The window is
+			// where it was: what was accepted before stays the newest
+			s := &ref.FrameSpec{Version: 2, Incompat: 1, Signed: true, Seq: byte(ts), Sys: 1, Comp: 1, MsgID: 0, LinkID: 3, Payload: []byte{1, 2, 3, 4, 5, 6, 7, 8, 3}, Timestamp: ts}
+			s.Checksum = ref.ChecksumOfWire(ref.Serialize(s), 50) ^ 0x0101
+			s.Signature = ref.SignatureOfWire(keyRaw, ref.Serialize(s))
+			stream = append(stream, ref.Serialize(s)...)
+			bad[hi] = true
+			rep.Count("signed_frames_refused_for_their_checksum_inside_the_window", 1)
+			continue
+		}
+		if ent&c07forged == 0 {
+			bm.step(ts)
+		}
 		if ent&c07forged != 0 {
 			s := &ref.FrameSpec{Version: 2, Incompat: 1, Signed: true, Seq: byte(ts), Sys: 1, Comp: 1, MsgID: 0x54321, LinkID: 1, Payload: []byte{1, 2, 3, 4}, Timestamp: ts}
 			s.Signature = ref.SignatureOfWire(keyRaw, ref.Serialize(s))
@@ -107,11 +131,24 @@ func c07runHistory(rep *vh.Report, keyRaw []byte, key *frame.V2Key, hist []uint6
 	}
 	guard(rep, "what=panic", func() interface{} { return hist }, func() {
 		var drw *dialect.ReadWriter
-		if len(hist)%2 == 0 {
-			// a dialect is configured too; the frames carry ids outside it (they come back raw): the window works the same
+		if withDialect {
 			drw = c07dialect
 		}
-		rd, ierr := newFrameSource(bytes.NewReader(stream), drw, key)
+		// every third history: the transport hands over one frame per read and, between some of them, reports an expired read
+		// deadline (a silent spell on a link with read timeouts); the caller goes on reading. What the reader remembers of the
+		// link is not touched by that
+		var src io.Reader = bytes.NewReader(stream)
+		timeouts := map[int]bool{}
+		if len(hist)%3 == 1 {
+			ts := &c07timeoutSrc{data: stream, offs: offs, timeoutBefore: timeouts}
+			for i := 1; i < len(hist); i++ {
+				if (i*3+len(hist))%7 < 2 {
+					timeouts[i] = true
+				}
+			}
+			src = ts
+		}
+		rd, ierr := newFrameSource(src, drw, key)
 		if ierr != nil {
 			rep.Violation("what=reader init", "a keyed reader with a valid configuration could not be built: "+ierr.Error(), nil)
 			return
@@ -119,6 +156,27 @@ func c07runHistory(rep *vh.Report, keyRaw []byte, key *frame.V2Key, hist []uint6
 		var m c07model
 		for i, ent := range hist {
 			ts := ent &^ c07forged
+			if timeouts[i] {
+				fr, err := rd.Read()
+				var nerr net.Error
+				if err == nil || !errors.As(err, &nerr) || !nerr.Timeout() {
+					rep.Violation("what=reader timeout-passed-on", fmt.Sprintf("the transport's timeout between two frames was not passed on as it is: %v, %v", fr, err), hist)
+					return
+				}
+				rep.Count("read_timeouts_between_frames_of_a_history", 1)
+			}
+			if bad[i] {
+				fr, err := rd.Read()
+				if err == nil {
+					rep.Violation("what=reader badsum-accepted", "a frame of a dialect message with a wrong checksum was delivered", fmt.Sprintf("%+v", fr))
+					return
+				}
+				if _, ok := err.(frame.ReadError); !ok {
+					rep.Violation("what=reader hist="+c07histKey(hist[:i+1]), "unexpected error class: "+err.Error(), hist)
+					return
+				}
+				continue
+			}
 			if ent&c07forged != 0 {
 				fr, err := rd.Read()
 				if err == nil {
@@ -178,7 +236,13 @@ func c07runHistory(rep *vh.Report, keyRaw []byte, key *frame.V2Key, hist []uint6
 				for _, e := range hist[:i] {
 					forgedBefore = forgedBefore || e&c07forged != 0
 				}
-				if forgedBefore && len(hist) > 6 {
+				badBefore := false
+				for j := 0; j < i; j++ {
+					badBefore = badBefore || bad[j]
+				}
+				if badBefore {
+					key = "after-frame-refused-for-its-checksum"
+				} else if forgedBefore && len(hist) > 6 {
 					key = "random after-forged-frame"
 				} else if len(hist) > 6 {
 					// long random histories: fingerprint by the deciding pair (newest, t) relation instead of the whole history
@@ -194,6 +258,43 @@ func c07runHistory(rep *vh.Report, keyRaw []byte, key *frame.V2Key, hist []uint6
 			}
 		}
 	})
+}
+
+// c07timeoutSrc serves a stream one frame per Read and answers the read before chosen frames, once each, with a timeout.
+type c07timeoutSrc struct {
+	data          []byte
+	offs          []int
+	timeoutBefore map[int]bool
+	pos, next     int
+	fired         map[int]bool
+}
+
+func (s *c07timeoutSrc) Read(p []byte) (int, error) {
+	if s.pos >= len(s.data) {
+		return 0, io.EOF
+	}
+	for s.next < len(s.offs) && s.offs[s.next] < s.pos {
+		s.next++
+	}
+	if s.next < len(s.offs) && s.offs[s.next] == s.pos && s.timeoutBefore[s.next] {
+		if s.fired == nil {
+			s.fired = map[int]bool{}
+		}
+		if !s.fired[s.next] {
+			s.fired[s.next] = true
+			return 0, &net.OpError{Op: "read", Net: "tcp", Err: os.ErrDeadlineExceeded}
+		}
+	}
+	end := len(s.data)
+	for _, o := range s.offs {
+		if o > s.pos {
+			end = o
+			break
+		}
+	}
+	n := copy(p, s.data[s.pos:end])
+	s.pos += n
+	return n, nil
 }
 
 func TestC07(t *testing.T) {
